@@ -593,7 +593,11 @@ class Evaluator:
             if h.name:
                 fh.env[h.name] = T("excobj", (tuple(names), _try_key(st)))
             k0 = len(fr.summary.exits)
-            hd = self.block(h.body, fh)
+            try:
+                hd = self.block(h.body, fh)
+            except (_Break, _Continue):
+                hd = True
+                fr.env["__loopctl__"] = True
             hexits = fr.summary.exits[k0:]
             del fr.summary.exits[k0:]
             return fh, hd, hexits
